@@ -1,5 +1,5 @@
 (* Glue between the sx line format and the C03 account model (unverified, trusted, small). *)
-From YV Require Import Common.Tac Common.Sx C03.C03Model.
+From YV Require Import Common.Tac Common.Sx C03.C03Model C03.C03WorldModel.
 Local Open Scope N_scope.
 
 Definition n_at (s : sx) (i : nat) : N := sx_get_n (sx_nth s i).
@@ -65,3 +65,20 @@ Fixpoint run_sx (a : acct) (ins : list input) : list sx :=
 (* arg: (N me  N guard  (input ...)) -> ( ((output ...) state) ... ) one entry per input *)
 Definition run_account (arg : sx) : sx :=
   SL (run_sx (init (n_at arg 0) (b_at arg 1)) (map input_of (sx_get_l (sx_nth arg 2)))).
+
+(* ---- the world model: (groups jids actions) -> ((account (output ...)) ...) one entry per action ---- *)
+Definition action_of (s : sx) : waction :=
+  match n_at s 0 with
+  | 0 => WSend (n_at s 1) (node_of (sx_nth s 2))
+  | 1 => WDeliver (N.to_nat (n_at s 1))
+  | 2 => WDup (N.to_nat (n_at s 1))
+  | 3 => WCorrupt (N.to_nat (n_at s 1)) (b_at s 2)
+  | _ => WRestart (n_at s 1)
+  end.
+
+Definition run_world (arg : sx) : sx :=
+  let groups := map (fun g => (n_at g 0, map sx_get_n (sx_get_l (sx_nth g 1)))) (sx_get_l (sx_nth arg 0)) in
+  let jids := map sx_get_n (sx_get_l (sx_nth arg 1)) in
+  let acts := map action_of (sx_get_l (sx_nth arg 2)) in
+  let '(w, outs) := wrun groups (winit jids) acts in
+  SL [SL (map (fun x => SL [SN (fst x); SL (map sx_output (snd x))]) outs); SN (N.of_nat (length (w_queue w)))].
